@@ -8,6 +8,11 @@
 //!   1. writes the answer line for the current phase to stdout (async-signal-safe `write`),
 //!   2. unblocks SIGSEGV and re-executes the worker binary (`execv`, stdin/stdout pipes are
 //!      inherited), so the parent sees an ordinary answer followed by a fresh worker.
+//! The same mechanism serves a CPU-time watchdog: `arm_with_watchdog` starts `ITIMER_PROF`
+//! (counts CPU time of the process, so machine load cannot trigger it); when the budget is used
+//! up SIGPROF arrives and the handler answers with the pre-rendered `hang.cpu..` verdict of the
+//! current phase and re-executes the worker. vcore's wall-clock watchdog stays in place for
+//! hangs that do not burn CPU.
 //! A fault that is not inside the main thread's stack growth region, or an unarmed fault,
 //! falls back to the default action (process dies => vcore reports `abort[..]`).
 //!
@@ -22,6 +27,8 @@ const NPHASE: usize = 4;
 
 static mut LINES: [[u8; CAP]; NPHASE] = [[0; CAP]; NPHASE];
 static LENS: [AtomicUsize; NPHASE] = [AtomicUsize::new(0), AtomicUsize::new(0), AtomicUsize::new(0), AtomicUsize::new(0)];
+static mut HANG_LINES: [[u8; CAP]; NPHASE] = [[0; CAP]; NPHASE];
+static HANG_LENS: [AtomicUsize; NPHASE] = [AtomicUsize::new(0), AtomicUsize::new(0), AtomicUsize::new(0), AtomicUsize::new(0)];
 static ARMED: AtomicBool = AtomicBool::new(false);
 static PHASE: AtomicUsize = AtomicUsize::new(0);
 static SP0: AtomicUsize = AtomicUsize::new(0);
@@ -65,6 +72,43 @@ pub fn install(worker_id: &str) {
         libc::sigemptyset(&mut sa.sa_mask);
         libc::sigaction(libc::SIGSEGV, &sa, std::ptr::null_mut());
         libc::sigaction(libc::SIGBUS, &sa, std::ptr::null_mut());
+        let mut sp: libc::sigaction = std::mem::zeroed();
+        sp.sa_sigaction = prof_handler as *const () as usize;
+        sp.sa_flags = libc::SA_SIGINFO | libc::SA_ONSTACK;
+        libc::sigemptyset(&mut sp.sa_mask);
+        libc::sigaction(libc::SIGPROF, &sp, std::ptr::null_mut());
+    }
+}
+
+fn set_prof_timer(ms: u64) {
+    let it = libc::itimerval {
+        it_interval: libc::timeval { tv_sec: 0, tv_usec: 0 },
+        it_value: libc::timeval { tv_sec: (ms / 1000) as libc::time_t, tv_usec: ((ms % 1000) * 1000) as libc::suseconds_t },
+    };
+    unsafe {
+        libc::setitimer(libc::ITIMER_PROF, &it, std::ptr::null_mut());
+    }
+}
+
+/// `arm` plus a CPU-time budget: `hang_lines[p]` is the answer when the process has consumed
+/// `cpu_budget_ms` of CPU time since this call while phase p is current.
+pub fn arm_with_watchdog(lines: &[String], hang_lines: &[String], cpu_budget_ms: u64) {
+    for (i, l) in hang_lines.iter().enumerate().take(NPHASE) {
+        let b = l.as_bytes();
+        let n = b.len().min(CAP - 1);
+        unsafe {
+            let dst = std::ptr::addr_of_mut!(HANG_LINES[i]) as *mut u8;
+            std::ptr::copy_nonoverlapping(b.as_ptr(), dst, n);
+            *dst.add(n) = b'\n';
+        }
+        HANG_LENS[i].store(n + 1, Ordering::SeqCst);
+    }
+    for l in HANG_LENS.iter().skip(hang_lines.len()) {
+        l.store(0, Ordering::SeqCst);
+    }
+    arm(lines);
+    if installed() {
+        set_prof_timer(cpu_budget_ms);
     }
 }
 
@@ -101,7 +145,43 @@ pub fn set_phase(p: usize) {
 }
 
 pub fn disarm() {
+    if installed() {
+        set_prof_timer(0);
+    }
     ARMED.store(false, Ordering::SeqCst);
+}
+
+unsafe fn answer_and_reexec(src: *const u8, n: usize) -> ! {
+    // no CPU timer may be pending when the new image starts (default action of SIGPROF kills)
+    let zero = libc::itimerval { it_interval: libc::timeval { tv_sec: 0, tv_usec: 0 }, it_value: libc::timeval { tv_sec: 0, tv_usec: 0 } };
+    libc::setitimer(libc::ITIMER_PROF, &zero, std::ptr::null_mut());
+    let mut off = 0usize;
+    while off < n {
+        let w = libc::write(1, src.add(off) as *const libc::c_void, n - off);
+        if w <= 0 {
+            libc::_exit(97);
+        }
+        off += w as usize;
+    }
+    let mut set: libc::sigset_t = std::mem::zeroed();
+    libc::sigemptyset(&mut set);
+    libc::sigaddset(&mut set, libc::SIGSEGV);
+    libc::sigaddset(&mut set, libc::SIGBUS);
+    libc::sigaddset(&mut set, libc::SIGPROF);
+    libc::sigprocmask(libc::SIG_UNBLOCK, &set, std::ptr::null_mut());
+    libc::execv(EXE, std::ptr::addr_of!(ARGV) as *const *const libc::c_char);
+    libc::_exit(98);
+}
+
+extern "C" fn prof_handler(_sig: libc::c_int, _info: *mut libc::siginfo_t, _ctx: *mut libc::c_void) {
+    unsafe {
+        let p = PHASE.load(Ordering::SeqCst).min(NPHASE - 1);
+        let n = HANG_LENS[p].load(Ordering::SeqCst);
+        if !ARMED.load(Ordering::SeqCst) || n == 0 || EXE.is_null() {
+            return;
+        }
+        answer_and_reexec(std::ptr::addr_of!(HANG_LINES[p]) as *const u8, n);
+    }
 }
 
 extern "C" fn handler(sig: libc::c_int, info: *mut libc::siginfo_t, _ctx: *mut libc::c_void) {
@@ -122,21 +202,6 @@ extern "C" fn handler(sig: libc::c_int, info: *mut libc::siginfo_t, _ctx: *mut l
             libc::sigaction(sig, &sa, std::ptr::null_mut());
             return;
         }
-        let src = std::ptr::addr_of!(LINES[p.min(NPHASE - 1)]) as *const u8;
-        let mut off = 0usize;
-        while off < n {
-            let w = libc::write(1, src.add(off) as *const libc::c_void, n - off);
-            if w <= 0 {
-                libc::_exit(97);
-            }
-            off += w as usize;
-        }
-        let mut set: libc::sigset_t = std::mem::zeroed();
-        libc::sigemptyset(&mut set);
-        libc::sigaddset(&mut set, libc::SIGSEGV);
-        libc::sigaddset(&mut set, libc::SIGBUS);
-        libc::sigprocmask(libc::SIG_UNBLOCK, &set, std::ptr::null_mut());
-        libc::execv(EXE, std::ptr::addr_of!(ARGV) as *const *const libc::c_char);
-        libc::_exit(98);
+        answer_and_reexec(std::ptr::addr_of!(LINES[p.min(NPHASE - 1)]) as *const u8, n);
     }
 }
